@@ -299,8 +299,8 @@ def gen_case(rng, tie):
         tt = [[int(d), s] for d, s in tt]
     total = sum(d for d, s in tt)
     cyc = rng.choice([True, True, False, None])
-    periods = rng.choice([1, 2, 3, 5, 10, 50]) + rng.random()
-    horizon = min(400.0, total * periods)
+    periods = rng.choice([1, 2, 3, 5, 10, 50, 50, 400]) + rng.random()        # (400: long histories)
+    horizon = min(400.0 if periods < 100 else 3000.0, total * periods)
     horizon = int(horizon * 8) / 8.0 + 0.125
     hs = [horizon]
     if rng.random() < 0.3:
